@@ -328,9 +328,16 @@ Scenario generate(const std::string& prop, uint64_t seed, const std::string& tie
         } else if (hk == 8) { sc.history = {full, full}; }
         else { HistOp nf = full; nf.flags = F_P2P; HistOp ff = full; ff.flags = F_ALL & ~F_P2P; sc.history = {nf, ff}; }
     } else if (prop == "C18") {
-        const int hk = int(r.below(10));
-        if (hk < 5) sc.history.push_back(full);
-        else if (hk < 7) { sc.history = {full, full}; }
+        const int hk = int(r.below(12));
+        if (hk < 4) sc.history.push_back(full);
+        else if (hk < 6) { sc.history = {full, full}; }
+        else if (hk < 9) {
+            // incomplete or repeated stage sets: the per-operator counts are then not symmetric (P2M != L2P, M2M != L2L)
+            static const int sets[] = {F_P2M | F_M2M, F_P2M | F_M2M | F_M2L, F_P2M, F_M2L | F_P2P, F_L2L | F_L2P, F_P2P, F_L2P, F_M2M, F_ALL & ~F_L2P, F_ALL & ~F_P2M};
+            const int nb = 1 + int(r.below(3));
+            sc.history.clear();
+            for (int i = 0; i < nb; ++i) { HistOp o = full; o.flags = sets[r.below(10)]; sc.history.push_back(o); }
+        }
         else {   // documented three-stage split
             HistOp a = full, b = full, c = full;
             a.flags = F_P2M | F_M2M; b.flags = F_M2L | F_P2P; c.flags = F_L2L | F_L2P;
